@@ -75,6 +75,38 @@ int main(int argc, char **argv)
         if (checkToken(o, n, r, std::string(heap, size), relaxed)) return 1;
         RP_OK("postconditions hold on this input");
     }
+    if (mode == "finddigits" || mode == "goodsuffix") {
+        // the REAL member functions on an exact-size heap copy of [from, to) (ASan sees any read outside the range)
+        size_t from = (size_t)c.unum("from", 0), to = (size_t)c.unum("to", bytes.size());
+        if (c.has("text")) { from = 0; to = bytes.size(); }
+        if (to > bytes.size()) bytes.resize(to, ' ');
+        Config.onoff.relaxed_header_parser = relaxedRaw;
+        CvCli obj;
+        if (from > to) {
+            if (mode == "finddigits") RP_OK("input violates the precondition prefix <= valueEnd");
+            char *h = (char *)malloc(from ? from : 1);
+            const bool r = obj.cvGoodSuffix(h + from, h + to);
+            printf("goodSuffix with suffix behind end -> %d\n", r);
+            if (!r) RP_FAIL("goodSuffix(suffix > end) returned false");
+            RP_OK("contract holds on this input");
+        }
+        const size_t n = to - from;
+        char *heap = (char *)malloc(n ? n : 1); memcpy(heap, bytes.data() + from, n);
+        if (mode == "finddigits") {
+            const char *r = obj.cvFindDigits(heap, heap + n);
+            size_t i = 0; while (i < n && ws(heap[i], relaxed)) ++i;
+            const bool want = i < n && heap[i] >= '0' && heap[i] <= '9';
+            printf("findDigits(\"%s\") relaxed=%d -> %s%ld; reference: %s%ld\n", std::string(heap, n).c_str(), relaxed,
+                   r ? "offset " : "NULL ", r ? (long)(r - heap) : 0L, want ? "offset " : "NULL ", want ? (long)i : 0L);
+            if (want ? r != heap + i : r != nullptr) RP_FAIL("findDigits differs from its contract");
+        } else {
+            const bool r = obj.cvGoodSuffix(heap, heap + n);
+            bool want = true; for (size_t i = 0; i < n; ++i) if (!delim(heap[i], relaxed)) want = false;
+            printf("goodSuffix(\"%s\") relaxed=%d -> %d; reference: %d\n", std::string(heap, n).c_str(), relaxed, r, want);
+            if (r != want) RP_FAIL("goodSuffix differs from its contract");
+        }
+        RP_OK("contract holds on this input");
+    }
     if (mode == "checkfield") {
         bytes = std::string(bytes.c_str());        // String: up to the first NUL
         char *heap = strdup(bytes.c_str());
